@@ -363,3 +363,44 @@ func vc_C02_cache2d() {
 	}
 	vfAssert(len(a.q) >= 1, "Cache2D evaluates the wrapped shape at least once")
 }
+
+// Slice2D: the operand is evaluated at a point of the plane through a with
+// normal n, at in-plane distance |p| from a (the 2-D -> 3-D map is an isometry
+// onto the plane), in all four branches of the axis choice.
+func vc_C02_slice2d() {
+	vfTimeouts(3000, 15000)
+	var n v3.Vec
+	switch vfCase("normal", 4) {
+	case 0:
+		n = v3.Vec{X: 0, Y: vfBounded("n.y"), Z: vfBounded("n.z")}
+	case 1:
+		n = v3.Vec{X: vfBounded("n.x"), Y: 0, Z: vfBounded("n.z")}
+		vfAssume(n.X != 0)
+	case 2:
+		n = v3.Vec{X: vfBounded("n.x"), Y: vfBounded("n.y"), Z: 0}
+		vfAssume(n.X != 0)
+		vfAssume(n.Y != 0)
+	default:
+		n = v3.Vec{X: vfBounded("n.x"), Y: vfBounded("n.y"), Z: vfBounded("n.z")}
+		vfAssume(n.X != 0)
+		vfAssume(n.Y != 0)
+		vfAssume(n.Z != 0)
+	}
+	vfAssume(n.Length2() >= 0.01)
+	a := vfNewLeaf3("a", 0)
+	a0 := vfPoint3("a0")
+	s := Slice2D(a, a0, n)
+	p := vfPoint2("p")
+	r := s.Evaluate(p)
+	vfReach("slice")
+	vfAssert(len(a.q) == 1, "Slice2D: operand evaluated once")
+	if len(a.q) == 1 {
+		d := a.q[0].Sub(a0)
+		tol := vfTol(1e-6, 1e-6)
+		dot := d.X*n.X + d.Y*n.Y + d.Z*n.Z
+		vfAssert(vfAnd(dot <= tol, -dot <= tol), "Slice2D: the operand point lies on the plane through a with normal n")
+		e := d.X*d.X + d.Y*d.Y + d.Z*d.Z - (p.X*p.X + p.Y*p.Y)
+		vfAssert(vfAnd(e <= tol, -e <= tol), "Slice2D: the 2-D to 3-D map preserves the distance from a")
+	}
+	vfAssert(r == a.v[0], "Slice2D returns the operand's value")
+}
